@@ -18,6 +18,8 @@ use crate::{
 pub const ALPN: &[u8] = b"/iroh-sync/1";
 
 mod codec;
+#[cfg(feature = "verif")]
+pub use self::codec::{verif as verif_codec, BobState as VerifBobState};
 
 /// Connect to a peer and sync a replica
 pub async fn connect_and_sync(
